@@ -90,6 +90,37 @@ theorem C02_range_seal_point {c : Cfg} (hc : RValid c) {st : RangeSpec.St} (hI :
     pre c.W (RangeSpec.sealWords c.W c.S st) (st.m + nW c) - st.Lo < 2^(c.S - c.W) :=
   seal_contains hc hI
 
+/-- **`clear()` gives the state of `new()`**, whatever the encoder was before — in the middle of
+    a message, with words held back (`Inverted`), with a non-empty sink, or outside `Inv`. -/
+theorem C02_range_clear_eq_new (c : Cfg) (e : Encoder) : clear c e = Encoder.empty c := rfl
+
+/-- … so a cleared and reused encoder satisfies the invariant, has the full head-room, abstracts
+    to the reference coder's initial state, and every encode history from it is the history from
+    `new()`: -/
+theorem C02_range_clear_inv {c : Cfg} (hc : RValid c) (e : Encoder) {n : Nat} (hn : MsgFits c n) :
+    Inv c (clear c e) ∧ Fits c (clear c e) n ∧ absE c (clear c e) = RangeSpec.init c.S :=
+  ⟨inv_empty hc, fits_empty hn, absE_empty c⟩
+
+/-- the words of any message encoded after `clear()` are the reference coder's words for that
+    message alone (C06 for a reused encoder) … -/
+theorem C02_range_clear_words_eq_spec {Sym : Type} {c : Cfg} (hc : RValid c) (e0 : Encoder)
+    (msg : List (MStep Sym)) (hn : MsgFits c msg.length) (hv : ∀ x ∈ msg, x.Valid c) :
+    ∃ e, encodeMsg c (clear c e0) msg = .ok e ∧
+      intoCompressed c e = .ok (RangeSpec.words c.W c.S (msg.map MStep.spec)) := by
+  obtain ⟨e, he, _, _, hw⟩ := words_eq_spec hc msg hn hv
+  exact ⟨e, he, hw⟩
+
+/-- … and they round-trip (C02 for a reused encoder) -/
+theorem C02_range_clear_roundtrip {Sym : Type} {c : Cfg} (hc : RValid c) (e0 : Encoder)
+    (msg : List (MStep Sym)) (hn : MsgFits c msg.length) (hv : ∀ x ∈ msg, x.Valid c) :
+    ∃ e ws d0 d, encodeMsg c (clear c e0) msg = .ok e ∧
+      intoCompressed c e = .ok ws ∧
+      Decoder.fromCompressed c ws = .ok d0 ∧
+      decodeMsg c d0 msg = .ok (msg.map (·.sym), d) ∧
+      d.maybeExhausted c = .ok true ∧
+      (msg = [] → ws = []) :=
+  roundtrip hc msg hn hv
+
 /-- **batch form = per-symbol loop** (`encode_symbols`, `try_encode_symbols` on `Ok` items): same
     encoder afterwards, same result — for every encoder state and every list of pairs, including
     lists on which some symbol is impossible -/
@@ -140,6 +171,7 @@ example : Fits exCfg exInverted 1 := by decide
 example : ∀ x ∈ exMsg, x.Valid exCfg := exMsg_valid
 example : encodeMsg exCfg (Encoder.empty exCfg) (exMsg.take 2) = .ok exInverted := ex_prefix
 example : Inv exCfg exInverted := exInverted_inv
+example : clear exCfg exInverted = Encoder.empty exCfg := rfl  -- cleared while a word is held back
 example : sealedWords exCfg exMsg = some [127, 29, 86] := ex_sealed
 example : decodedSyms exCfg [127, 29, 86] exMsg = some [1, 1, 2, 0, 1] := ex_decoded
 example : (encodeSymbols exCfg (Encoder.empty exCfg)
@@ -154,6 +186,10 @@ end CV.Range
 #print axioms CV.Range.C02_range_roundtrip
 #print axioms CV.Range.C02_range_roundtrip_tables
 #print axioms CV.Range.C02_range_seal_point
+#print axioms CV.Range.C02_range_clear_eq_new
+#print axioms CV.Range.C02_range_clear_inv
+#print axioms CV.Range.C02_range_clear_words_eq_spec
+#print axioms CV.Range.C02_range_clear_roundtrip
 #print axioms CV.Range.C02_range_encodeSymbols_batch_eq_perSymbolLoop
 #print axioms CV.Range.C02_range_encodeIidSymbols_batch_eq_perSymbolLoop
 #print axioms CV.Range.C02_range_decodeSymbols_batch_eq_perSymbolLoop
